@@ -7,6 +7,7 @@ From Coq Require Import String List ZArith Bool Arith.
 From TR Require Import Extracted model.Socket proofs.SocketProofs.
 From TR Require Import model.GoSem model.ConnExt translated.ConnLoop proofs.TieConn.
 From TR Require Import model.HdrExt translated.HeaderReader proofs.TieHdr.
+From TR Require Import translated.Leptond model.LeptondExt proofs.TieLeptondSpecs proofs.TieLeptond.
 Import ListNotations.
 Close Scope string_scope.
 Open Scope list_scope.
@@ -214,3 +215,150 @@ Theorem C14_source_header_accessors : forall W (ext : String.string -> list arg 
   HeaderInfo_Firmware ext h w = Ok (h, HeaderInfo_firmware h) w /\
   HeaderInfo_CameraSerial ext h w = Ok (h, HeaderInfo_serial h) w.
 Proof. exact tie_accessors. Qed.
+
+(* ---- the SENDER itself (coq/translated/Leptond.v, regenerated from sendCameraSpecs, runCamera and runMain
+   - from its call of sendCameraSpecs on - in cmd/leptond/main.go on every run; outside world and model:
+   model/LeptondExt.v, in which the camera, the restarts, the service's reset flag and the write faults are
+   scripts and yaml.Marshal is an encoder PARAMETER [s_encode] - every statement is for every encoder) ---- *)
+
+(* sendCameraSpecs as written: the map literal has the keys of headers/headers.go and the values of
+   [sender_specs] (serial 0 / firmware of 0.0.0 when GetSerial / GetSoftwareVersion fail, whatever they hand
+   back); it is encoded once; a failing GetModel / yaml.Marshal: that error and nothing written; a failing Write
+   of the text: that error and nothing more; else the text, then the newline (its error ignored), nil *)
+Theorem C14_source_sender_header : forall cfg c conn w,
+  scfg_ok cfg -> sw_open w = c -> c <> 0 -> sw_conn w = conn -> conn <> 0 ->
+  spost (Leptond_fn_sendCameraSpecs (sext cfg) c conn w) (fun r w' =>
+    sstatic w w' /\ sw_cam w' = sw_cam w /\ sw_flag w' = sw_flag w /\ sw_log w' = sw_log w /\
+    sw_nobj w' = sw_nobj w /\
+    match s_model cfg with
+    | None => r = SERR_MODEL /\ sw_out w' = sw_out w /\ sw_wf w' = sw_wf w
+    | Some m =>
+      match s_encode cfg (sender_specs cfg m) with
+      | None => r = SERR_YAML /\ sw_out w' = sw_out w /\ sw_wf w' = sw_wf w
+      | Some h =>
+        match sw_wf w with
+        | WFail n :: wf' => r = SERR_WRITE /\ sw_out w' = sw_out w ++ [firstn n h] /\ sw_wf w' = wf'
+        | wf => r = 0 /\ sw_out w' = sw_out w ++ [h; nl_chunk (tl wf)] /\ sw_wf w' = tl (tl wf)
+        end
+      end
+    end).
+Proof. exact tie_sendCameraSpecs. Qed.
+
+(* one call of runCamera, from any world in which the camera is open, with fuel > |camera script|: it writes the
+   frames of [rc_plan] - each exactly as NextFrame delivered it, one Write per frame - until a Write fails (that
+   error at once, nothing more written); a NextFrame error ends it with a *nextFrameErr, the reset flag with nil
+   after clearing the flag, and the frame read in that iteration is not written *)
+Theorem C14_source_sender_frames : forall cfg c conn fuel w,
+  sw_open w = c -> c <> 0 -> sw_conn w = conn -> conn <> 0 -> 0 <= sw_nobj w ->
+  (List.length (sw_cam w) < fuel)%nat ->
+  spost (Leptond_fn_runCamera (sext cfg) fuel c conn w) (fun r w' =>
+    let '(fs, by_reset, cam', flag') := rc_plan (sw_cam w) (sw_flag w) in
+    sw_out w' = sw_out w ++ walk (map IFrame fs) (sw_wf w) /\
+    sw_power w' = sw_power w /\ sw_start w' = sw_start w /\ sw_open w' = sw_open w /\ sw_conn w' = sw_conn w /\
+    sw_nobj w' = sw_nobj w + 1 /\
+    if frames_ok fs (sw_wf w) then
+      r = Some (if by_reset then 0 else NFE + SERR_CAM) /\ sw_cam w' = cam' /\ sw_flag w' = flag' /\
+      sw_wf w' = skipn (List.length fs) (sw_wf w) /\
+      sw_log w' = sw_log w ++ (if by_reset then [SFlagCleared] else [])
+    else r = Some SERR_WRITE /\ sw_log w' = sw_log w).
+Proof. exact tie_runCamera. Qed.
+
+(* one round of runMain's restart loop ([round_post]): runCamera; a Write error returns it; else removeCamera,
+   Close of the camera of this round, the power cycle, startCamera, setCamera of what it returned - a failure of
+   either returns that error with nothing more written - and then exactly ONE marker (= the recorder's
+   clearBuffer, C14_marker_agreement), whose Write error is ignored; the next round uses the new camera *)
+Theorem C14_source_sender_restart : forall cfg fuel c conn err w,
+  sw_open w = c -> c <> 0 -> sw_conn w = conn -> conn <> 0 -> 0 <= sw_nobj w ->
+  (List.length (sw_cam w) < fuel)%nat ->
+  spost (Leptond_fn_runMain_tail_loop1 (sext cfg) fuel conn (err, c) w) (round_post w).
+Proof. exact tie_restart_round. Qed.
+
+(* the whole sender, for EVERY script of NextFrame results, reset-flag readings, power-cycle and startCamera
+   results and write faults, fuel > |camera script| + |power script|: no panic; it returns an error (it never
+   returns nil); the chunks on the connection are exactly [sender_chunks]: the header text, the newline, then
+   [walk (main_plan ...)] - per successfully read frame (not read under the reset flag) its bytes, one marker after
+   each successful restart, NOTHING after a failed frame Write or a failed restart; and no call it made to the
+   outside world was senseless (NextFrame / Close only on the open camera, power cycling only with the camera
+   closed, Writes only to the connection) *)
+Theorem C14_source_sender_writes : forall cfg cam flag power start wf fuel,
+  scfg_ok cfg -> (List.length cam + List.length power < fuel)%nat ->
+  spost (src_sender cfg fuel (sender_init cam flag power start wf)) (fun r w' =>
+    r = Some (sender_result cfg cam flag power start wf) /\
+    sw_out w' = sender_chunks cfg cam flag power start wf /\
+    ~ In SBad (sw_log w')).
+Proof. exact tie_sender. Qed.
+
+Theorem C14_source_sender_returns_error : forall cfg cam flag power start wf,
+  sender_result cfg cam flag power start wf <> 0.
+Proof. exact sender_result_nonzero. Qed.
+
+(* in the words of model/Socket.v: when the two Writes of the header succeed and no marker's Write fails
+   (SIDE CONDITION FORCED BY THE GO CODE, which ignores the errors of the newline's and the markers' Writes -
+   TieLeptond.ex_lost_marker shows a Reset lost otherwise), the bytes written are
+       h ++ [NL] ++ flat_map enc_item items ++ tail
+   with items the delivered prefix of the plan and tail the delivered part of the ONE frame whose Write failed *)
+Theorem C14_source_sender_stream : forall cfg cam flag power start wf h,
+  header_of cfg = Some h -> wok wf = true -> wok (tl wf) = true ->
+  ignored_ok (main_plan cam flag power start) (tl (tl wf)) = true ->
+  let s := sent (main_plan cam flag power start) (tl (tl wf)) in
+  List.concat (sender_chunks cfg cam flag power start wf) = h ++ [NL] ++ flat_map enc_item (fst s) ++ snd s.
+Proof. exact sender_stream. Qed.
+
+Theorem C14_source_sender_items_prefix : forall items wf, exists rest, items = fst (sent items wf) ++ rest.
+Proof. exact sent_prefix. Qed.
+
+(* no frame is sent twice or out of order: the plan's frames are a subsequence of what the camera yielded *)
+Theorem C14_source_sender_once : forall power cam flag start,
+  subseq (item_frames (main_plan cam flag power start)) (cam_frames cam).
+Proof. exact plan_frames_subseq. Qed.
+
+(* END TO END on the translated code of BOTH daemons.  The chunks the translated sender wrote, re-segmented in
+   any way (cs), fed to the translated receiver (handleConn): its Reset / Process log is exactly the sender's
+   delivered items.  Hypotheses, all explicit: the configuration's integers are Go integers; GetModel and
+   yaml.Marshal succeed with text h satisfying header_text_ok; the header's two Writes succeed and no marker's
+   Write fails; THE GUARD of the in-band marker ([cam_ok]: every frame the camera yields has the frame size and
+   does NOT begin with the marker bytes - C14_inband_marker_refuted); frame size >= 5; the codec round-trips
+   the field map (dec h = the map of [sender_specs]) and the receiver decodes with it; the recorder knows the
+   camera (frameParser), fps and the two log intervals are non-zero (handleConn's own side conditions) *)
+Theorem C14_source_end_to_end : forall scfg0 cam flag power start wf h m dec ym,
+  scfg_ok scfg0 ->
+  s_model scfg0 = Some m -> s_encode scfg0 (sender_specs scfg0 m) = Some h ->
+  header_text_ok h = true ->
+  wok wf = true -> wok (tl wf) = true ->
+  ignored_ok (main_plan cam flag power start) (tl (tl wf)) = true ->
+  cam_ok (s_fs scfg0) cam = true ->
+  (5 <= s_fs scfg0)%nat ->
+  dec h = Some ym -> (forall k, ym k = ymap_of (sender_specs scfg0 m) k) ->
+  forall ccfg script i1 i2 fuelS,
+  (List.length cam + List.length power < fuelS)%nat ->
+  (forall t, c_decode ccfg t = option_map (fun y => hdr_of_fields (fields_of y)) (dec t)) ->
+  parser_of FLIR m <> 0 -> s_fps scfg0 <> 0 -> i1 <> 0 -> i2 <> 0 ->
+  spost (src_sender scfg0 fuelS (sender_init cam flag power start wf)) (fun rs ws =>
+    rs = Some (sender_result scfg0 cam flag power start wf) /\
+    forall cs fuelR, List.concat cs = List.concat (sw_out ws) -> (S (total_len cs) <= fuelR)%nat ->
+      post (src_conn ccfg fuelR (conn_init cs script i1 i2)) (fun r wr =>
+        items_of (cw_log wr) = fst (sent (main_plan cam flag power start) (tl (tl wf))) /\
+        (r = Some ERR_EOF \/ r = Some ERR_UEOF) /\ cw_in wr = [])).
+Proof. exact end_to_end. Qed.
+
+(* ... and the translated ReadHeaderInfo, run on the same chunks, hands the recorder exactly the eight values
+   sendCameraSpecs put into the map, consuming nothing beyond the blank line *)
+Theorem C14_source_end_to_end_header : forall scfg0 cam flag power start wf h m dec ym,
+  scfg_ok scfg0 ->
+  s_model scfg0 = Some m -> s_encode scfg0 (sender_specs scfg0 m) = Some h ->
+  header_text_ok h = true ->
+  wok wf = true -> wok (tl wf) = true ->
+  ignored_ok (main_plan cam flag power start) (tl (tl wf)) = true ->
+  cam_ok (s_fs scfg0) cam = true ->
+  (5 <= s_fs scfg0)%nat ->
+  dec h = Some ym -> (forall k, ym k = ymap_of (sender_specs scfg0 m) k) ->
+  forall fuelS, (List.length cam + List.length power < fuelS)%nat ->
+  spost (src_sender scfg0 fuelS (sender_init cam flag power start wf)) (fun rs ws =>
+    forall cs fuelR, List.concat cs = List.concat (sw_out ws) -> (S (total_len cs) <= fuelR)%nat ->
+      hpost (src_header dec fuelR RD (hdr_init cs)) (fun r hw' =>
+        List.concat (hw_in hw') =
+          flat_map enc_item (fst (sent (main_plan cam flag power start) (tl (tl wf)))) ++
+          snd (sent (main_plan cam flag power start) (tl (tl wf))) /\
+        hw_decoded hw' = [h] /\
+        exists hi, r = Some (hi, 0) /\ hdr_view hw' hi = Some (sender_fields scfg0 m))).
+Proof. exact end_to_end_header. Qed.
